@@ -205,9 +205,15 @@ func init() {
 		return out
 	}
 	instanceAxioms["b.ofstr"] = func(t *Term) []*Term {
+		if t.Args[0].Op == "str.ofb" {
+			return nil
+		}
 		return []*Term{Eq(App("str.ofb", StrSort, t), t.Args[0])}
 	}
 	instanceAxioms["str.ofb"] = func(t *Term) []*Term {
+		if t.Args[0].Op == "b.ofstr" {
+			return nil
+		}
 		return []*Term{Eq(App("b.ofstr", BytesSort, t), t.Args[0])}
 	}
 	// bytes.Compare / key ordering: injective order embedding
